@@ -32,35 +32,35 @@ def pair_block(kind, a, b, seed, calls):
 
 
 _REPORT = re.compile(r"WARNING: ThreadSanitizer: data race.*?={18}", re.S)
-_FRAME = re.compile(r"#\d+ (.*?) (/\S+?):(\d+)")
+_FRAME = re.compile(r"#\d+ (.+?) (?:/\S+?:\d+|<null>) \(")
+
+
+def _lib_frame(fn):
+    # the adapter is a thin forwarding wrapper around the container (the library call may be inlined into it)
+    return "cappuccino::" in fn or "vh::Adapter<" in fn
 
 
 def parse_reports(text):
-    """Returns list of dict(stacks=[[frames]], methods=[m1, m2], in_library=bool)."""
+    """Returns list of dict(methods=[m1, m2], in_library=bool, text)."""
     out = []
     for m in _REPORT.finditer(text):
         rep = m.group(0)
-        # the first two stacks are the two conflicting accesses
         parts = re.split(r"\n\s*\n", rep)
         stacks = []
         for part in parts:
-            if re.search(r"(Write|Read|Previous write|Previous read|Atomic).* of size", part):
-                frames = _FRAME.findall(part)
-                stacks.append(frames)
+            if re.search(r"(Write|Read|Previous write|Previous read|Atomic|Previous atomic).* of size", part):
+                stacks.append(_FRAME.findall(part))
         stacks = stacks[:2]
         meths = []
         inlib = []
         for st in stacks:
-            lib = [f for f in st if "/cappuccino/" in f[1]]
+            lib = [f for f in st if _lib_frame(f)]
             inlib.append(bool(lib))
             name = None
             for f in lib:
-                mm = re.search(r"cappuccino::\w+<.*?>::(\w+)", f[0]) or re.search(r"::(\w+)\(", f[0])
+                mm = re.search(r"cappuccino::\w+<.*?>::(\w+)\(", f) or re.search(r"vh::Adapter<.*?>::(\w+)\(", f)
                 if mm and not mm.group(1).startswith("do_") and mm.group(1) not in ("lock", "unlock"):
                     name = mm.group(1)
-            if name is None and lib:
-                mm = re.search(r"::(\w+)[(<]", lib[-1][0])
-                name = mm.group(1) if mm else "?"
             meths.append(name or "?")
         out.append(dict(methods=meths, in_library=len(inlib) == 2 and all(inlib), text=rep[:3000]))
     return out
@@ -172,7 +172,10 @@ def check(tier):
     for key, rep in sorted(races.items()):
         kind, m1, m2 = key
         # re-run the pair alone for the replay file
-        ops = [o for o, pub in PUBLIC.items() if pub in (m1, m2)]
+        ADAPTER = {"insert": "ins", "insert_range": "insr", "erase": "era", "erase_range": "erar", "find": "find",
+                   "find_wc": "findc", "find_range": "findr", "find_range_fill": "findf", "clean": "clean", "age": "age",
+                   "update_ttl": "uttl", "clear": "clear", "size": "size", "empty": "empty", "capacity": "capacity"}
+        ops = [o for o, pub in PUBLIC.items() if pub in (m1, m2)] or [ADAPTER[x] for x in (m1, m2) if x in ADAPTER]
         a = ops[0] if ops else "ins"
         b = ops[-1] if ops else "size"
         blk = pair_block(kind, a, b, seed, calls)
